@@ -640,11 +640,20 @@ Botan::DL_Group dl_group(const json& r)
 	return Botan::DL_Group(p, q, g);
 }
 
+// hash "Raw": a hash value longer than q is cut to its leftmost |q| bytes here (the library then keeps the leftmost
+// bits(q) bits of that, FIPS 186-4 4.6); Botan's DSA verification refuses longer inputs instead of truncating them
+Bytes dsa_raw_input(const std::string& emsa, const Bytes& msg, const BigInt& q)
+{
+	if (emsa == "Raw" && msg.size() > q.bytes()) return Bytes(msg.begin(), msg.begin() + q.bytes());
+	return msg;
+}
+
 json op_dsa_sign(const json& r)
 {
 	std::string emsa = dsa_emsa(r);
 	Bytes msg = bytes(r, "msg");
 	Botan::DL_Group grp = dl_group(r);
+	msg = dsa_raw_input(emsa, msg, grp.get_q());
 	BigInt x = bigint(r, "x");
 	if (x.is_zero() || x >= grp.get_q()) throw Err("DSA x out of range");  // (0 would make Botan generate a random key)
 	Botan::DSA_PrivateKey key(rng(), grp, x);
@@ -659,6 +668,7 @@ json op_dsa_verify(const json& r)
 	std::string emsa = dsa_emsa(r);
 	Bytes msg = bytes(r, "msg"), sig = bytes(r, "sig");
 	Botan::DL_Group grp = dl_group(r);
+	msg = dsa_raw_input(emsa, msg, grp.get_q());
 	BigInt y = bigint(r, "y");
 	if (y < 1 || y >= grp.get_p()) throw Err("DSA y out of range");
 	Botan::DSA_PublicKey key(grp, y);
